@@ -1248,9 +1248,11 @@ impl Value {
             Self::U64(x) => {
                 let value = match value {
                     Value::U64(v) => v,
+                    // Keep the low 64 bits: the window clips the rest, and a
+                    // source wider than 64 bits must truncate, not become 0.
                     Value::BigUint(v) => ValueU64 {
-                        payload: v.payload.to_u64().unwrap_or(0),
-                        mask_xz: v.mask_xz.to_u64().unwrap_or(0),
+                        payload: v.payload.iter_u64_digits().next().unwrap_or(0),
+                        mask_xz: v.mask_xz.iter_u64_digits().next().unwrap_or(0),
                         width: v.width,
                         signed: v.signed,
                     },
